@@ -188,3 +188,154 @@ Proof.
   inversion H; subst m'; clear H.
   destruct (run_all_profile k t tis (init_pstate m) st g Hok Hno Hg Ht E) as (g' & A & B & _). eauto.
 Qed.
+
+(* ================================================================== *)
+(* The positive clause for an inserted QUANTIZE / DEQUANTIZE: right after the
+   step, the operators the instruction lists (resolved to positions) read the
+   NEW tensor at exactly the slots where they read the old one, nobody else
+   reads it — and if nothing later names the new tensor, that is still so at
+   the end of the run. *)
+From VF Require Import Proofs.RewireFun.
+
+Definition moved (tid : Z) (cs : list Z) (ko : Z * op) : Z * list bool :=
+  (o_uid (snd ko), if memZ (fst ko) cs then map (Z.eqb tid) (o_ins (snd ko))
+                   else map (fun _ => false) (o_ins (snd ko))).
+Definition moved_profile (tid : Z) (cs : list Z) (g : subgraph) : list (Z * list bool) :=
+  map (moved tid cs) (filter (fun ko => is_original (snd ko)) (enumerate (sg_ops g))).
+
+Lemma rewire_drop_absent old new : forall cs ops,
+  rewire_consumers ops cs old new =
+  rewire_consumers ops (filter (fun c => negb (Z.eqb c (-1))) cs) old new.
+Proof.
+  unfold rewire_consumers. induction cs as [|c cs IH]; intros ops; cbn [foldM filter]; [reflexivity|].
+  destruct (Z.eqb c (-1)) eqn:E; cbn [negb bind].
+  - apply IH.
+  - cbn [foldM]. rewrite E. destruct (py_index ops c); cbn [bind]; [apply IH|reflexivity].
+Qed.
+
+Lemma slots_new_rewire o old new :
+  ~ In new (o_ins o) -> slots new (rewire_op o old new) = (o_uid o, map (Z.eqb old) (o_ins o)).
+Proof.
+  intros Hn. unfold slots, rewire_op. cbn [o_uid o_ins]. f_equal. rewrite map_map.
+  apply map_ext_in. intros y Hy. destruct (Z.eqb_spec y old) as [->|Hne].
+  - rewrite !Z.eqb_refl. reflexivity.
+  - destruct (Z.eqb_spec new y) as [->|_]; [contradiction|]. destruct (Z.eqb_spec old y); [congruence|reflexivity].
+Qed.
+
+Lemma slots_new_none o new : ~ In new (o_ins o) -> slots new o = (o_uid o, map (fun _ => false) (o_ins o)).
+Proof.
+  intros Hn. unfold slots. f_equal. apply map_ext_in. intros y Hy.
+  destruct (Z.eqb_spec new y) as [->|_]; [contradiction|reflexivity].
+Qed.
+
+Lemma pointwise_profile old new cs : forall (l l' : list op) i0,
+  (forall o, In o l -> ~ In new (o_ins o)) ->
+  (forall k, nth_opt l' k = option_map (fun o => if memZ (i0 + Z.of_nat k) cs then rewire_op o old new else o)
+                                       (nth_opt l k)) ->
+  map (slots new) (filter is_original l') =
+  map (moved old cs) (filter (fun ko => is_original (snd ko)) (enumerate_from i0 l)).
+Proof.
+  induction l as [|o l IH]; intros l' i0 Hn H.
+  - destruct l' as [|o' l']; [reflexivity|]. specialize (H 0%nat). discriminate.
+  - destruct l' as [|o' l']; [specialize (H 0%nat); discriminate|].
+    pose proof (H 0%nat) as H0. cbn [nth_opt option_map] in H0. rewrite Z.add_0_r in H0. inversion H0 as [E0].
+    cbn [enumerate_from filter snd].
+    assert (Hno : ~ In new (o_ins o)) by (apply Hn; left; reflexivity).
+    assert (Htl : map (slots new) (filter is_original l') =
+                  map (moved old cs) (filter (fun ko => is_original (snd ko)) (enumerate_from (i0 + 1) l))).
+    { apply IH; [intros o2 H2; apply Hn; right; exact H2|].
+      intros k. specialize (H (S k)). cbn [nth_opt] in H. rewrite H.
+      replace (i0 + Z.of_nat (S k)) with (i0 + 1 + Z.of_nat k) by lia. reflexivity. }
+    destruct (memZ i0 cs) eqn:Em.
+    + rewrite is_original_rewire. destruct (is_original o); cbn [map]; [|exact Htl].
+      rewrite Htl. f_equal. unfold moved. cbn [fst snd]. rewrite Em. apply slots_new_rewire. exact Hno.
+    + destruct (is_original o); cbn [map]; [|exact Htl].
+      rewrite Htl. f_equal. unfold moved. cbn [fst snd]. rewrite Em. apply slots_new_none. exact Hno.
+Qed.
+
+Lemma memZ_filter_absent k cs : 0 <= k -> memZ k (filter (fun c => negb (Z.eqb c (-1))) cs) = memZ k cs.
+Proof.
+  intros Hk. induction cs as [|c cs IH]; [reflexivity|]. cbn [filter]. unfold memZ in *.
+  destruct (Z.eqb_spec c (-1)) as [->|Hc]; cbn [negb existsb].
+  - rewrite IH. destruct (Z.eqb_spec k (-1)); [lia|reflexivity].
+  - rewrite IH. reflexivity.
+Qed.
+
+Lemma moved_ext tid cs cs' l : forall i0, 0 <= i0 ->
+  (forall k, 0 <= k -> memZ k cs' = memZ k cs) ->
+  map (moved tid cs') (filter (fun ko => is_original (snd ko)) (enumerate_from i0 l)) =
+  map (moved tid cs) (filter (fun ko => is_original (snd ko)) (enumerate_from i0 l)).
+Proof.
+  induction l as [|o l IH]; intros i0 H0 H; [reflexivity|]. cbn [enumerate_from filter snd].
+  destruct (is_original o); cbn [map]; [f_equal|]; try (apply IH; [lia|exact H]).
+  unfold moved. cbn [fst snd]. rewrite (H i0 H0). reflexivity.
+Qed.
+
+Lemma insert_common_new_profile q codes bufs g tid producer cs ps codes' bufs' g' info :
+  0 <= tid < ntens g -> Forall (fun c => c = -1 \/ 0 <= c) cs ->
+  (forall o, In o (sg_ops g) -> ~ In (ntens g) (o_ins o)) ->
+  insert_common q codes bufs g tid producer cs ps = Ok (codes', bufs', g', info) ->
+  readers_profile (ntens g) g' = moved_profile tid cs g.
+Proof.
+  intros Htid Hcs Hfresh H. unfold insert_common in H.
+  destruct (add_op_code _ codes) as [cidx cds].
+  destruct (get_tensor g tid) as [t0|]; cbn [bind] in H; [|discriminate].
+  match type of H with bind ?m _ = _ => destruct m as [[b2 g2]|] eqn:Q end; cbn [bind] in H; [|discriminate].
+  destruct (py_min cs); cbn [bind] in H; [|discriminate].
+  match type of H with bind ?m _ = _ => destruct m as [ops'|] eqn:R end; cbn [bind] in H; [|discriminate].
+  destruct (Z.max (producer + 1) _ <? 0); [discriminate|]. inversion H; subst; clear H.
+  destruct (quantize_tensor_shape _ _ _ _ _ _ Q) as (Hops & _). cbn [sg_ops] in Hops.
+  unfold readers_profile, moved_profile. cbn [sg_ops]. rewrite filter_insert_at by reflexivity.
+  rewrite Hops in R. rewrite rewire_drop_absent in R.
+  set (cs' := filter (fun c => negb (Z.eqb c (-1))) cs) in *.
+  assert (Hcs' : Forall (fun c => 0 <= c) cs').
+  { unfold cs'. apply Forall_forall. intros c Hc. apply filter_In in Hc. destruct Hc as [Hc Hn].
+    rewrite Forall_forall in Hcs. destruct (Hcs c Hc) as [->|]; [discriminate|assumption]. }
+  assert (Hne : lenZ (sg_tensors g) <> tid) by (unfold ntens in Htid; lia).
+  pose proof (rewire_fun cs' _ _ _ _ Hne Hcs' R) as HF.
+  unfold enumerate. fold (ntens g).
+  rewrite (pointwise_profile tid (ntens g) cs' (sg_ops g) ops' 0 Hfresh).
+  - apply moved_ext; [lia|]. intros k Hk. unfold cs'. apply memZ_filter_absent. exact Hk.
+  - intros k. rewrite Z.add_0_l. apply HF.
+Qed.
+
+Theorem inserted_tensor_readers k st i later st1 later1 fuel st2 post st3 g om cs :
+  nth_opt (m_subgraphs (ps_model st)) k = Some g ->
+  (i_trans i = Tr_ADD_QUANTIZE \/ i_trans i = Tr_ADD_DEQUANTIZE) ->
+  0 <= i_tensor i < ntens g -> (forall o, In o (sg_ops g) -> ~ In (ntens g) (o_ins o)) ->
+  py_index (ps_orig st) (Z.of_nat k) = Ok om ->
+  mapM (fun c => if Z.eqb c (-1) then Ok (-1) else py_index om c) (i_consumers i) = Ok cs ->
+  Forall (fun c => c = -1 \/ 0 <= c) cs ->
+  apply_single st (Z.of_nat k) i later = Ok (st1, later1) ->
+  Forall (fun j => 0 <= i_tensor j) later1 -> Forall (quiet (ntens g)) later1 ->
+  apply_insts st1 (Z.of_nat k) later1 fuel = Ok st2 ->
+  ids_ok post -> never_names k (ntens g) post -> run_all post st2 = Ok st3 ->
+  exists g3, nth_opt (m_subgraphs (ps_model st3)) k = Some g3 /\
+             readers_profile (ntens g) g3 = moved_profile (i_tensor i) cs g.
+Proof.
+  intros Hg Htr Ht Hfresh Hom Hcs Hcsr H Hnn1 Hq1 H2 Hok Hnn H3.
+  assert (Hs : 0 <= Z.of_nat k) by lia.
+  rewrite apply_single_unfold in H. rewrite Hom in H. cbn [bind] in H.
+  destruct (py_index (ps_added st) (Z.of_nat k)) as [am|]; cbn [bind] in H; [|discriminate].
+  destruct (py_index (m_subgraphs (ps_model st)) (Z.of_nat k)) as [g0|] eqn:Eg; cbn [bind] in H; [|discriminate].
+  apply (py_index_nonneg _ _ _ Hs) in Eg. destruct Eg as [Eg _]. rewrite Nat2Z.id, Hg in Eg. inversion Eg; subst g0.
+  destruct (resolve om am (i_producer i)) as [producer|]; cbn [bind] in H; [|discriminate].
+  rewrite Hcs in H. cbn [bind] in H.
+  destruct (trans_of i (m_opcodes (ps_model st)) (m_buffers (ps_model st)) g producer cs)
+    as [[[[c' b'] g1] info]|] eqn:T; cbn [bind] in H; [|discriminate].
+  assert (P1 : readers_profile (ntens g) g1 = moved_profile (i_tensor i) cs g /\ ntens g1 = ntens g + 1).
+  { unfold trans_of in T. destruct Htr as [E|E]; rewrite E in T.
+    - split; [eapply insert_common_new_profile; eauto|].
+      destruct (insert_common_other _ _ _ _ _ _ _ _ _ _ _ _ (proj1 Ht) T) as (A & _). exact A.
+    - split; [eapply insert_common_new_profile; eauto|].
+      destruct (insert_common_other _ _ _ _ _ _ _ _ _ _ _ _ (proj1 Ht) T) as (A & _). exact A. }
+  destruct P1 as [P1 N1].
+  assert (Hg1 : nth_opt (m_subgraphs (ps_model st1)) k = Some g1).
+  { destruct (to_added info =? 0); inversion H; subst st1; cbn [ps_model set_sg m_subgraphs];
+      rewrite Nat2Z.id; apply nth_opt_set_nth_same; eapply nth_opt_Some_lt; exact Hg. }
+  assert (Hx : 0 <= ntens g < ntens g1) by (unfold ntens, lenZ in *; lia).
+  destruct (apply_insts_profile (Z.of_nat k) k (ntens g) Hs fuel later1 st1 st2 g1 Hnn1 Hg1 Hx (or_intror Hq1) H2)
+    as (g2 & Hg2 & P2 & N2).
+  destruct (run_all_profile k (ntens g) post st2 st3 g2 Hok Hnn Hg2 ltac:(lia) H3) as (g3 & Hg3 & P3 & _).
+  exists g3. split; [exact Hg3|]. congruence.
+Qed.
